@@ -371,3 +371,106 @@ Proof.
     rewrite Hs, In_add_edge. cbn [In]. intuition (subst; auto). }
   intros e. rewrite (G edges ([], []) A e). cbn. tauto.
 Qed.
+
+(* ---------------------------------------------------------------- where flattened edges come from *)
+Section Origin.
+Variable pfam : N -> bool.
+Variable mm : qkey -> option memo.
+
+(* a function edge of a flattened origin is an original edge, or points to a function without memo *)
+Lemma collect_fn fuel : forall e out vis P,
+  (forall g, In (EQ g) out -> P g \/ mm g = None) ->
+  forall g, In (EQ g) (fst (collect mm fuel e (out, vis))) -> P g \/ mm g = None.
+Proof.
+  induction fuel as [|fuel IH]; intros e out vis P A g Hg; [apply A; exact Hg|].
+  cbn [collect fst snd] in Hg. destruct e as [i|g0].
+  - apply In_add_edge in Hg. destruct Hg as [Hg | Hg]; [apply A; exact Hg | discriminate].
+  - destruct (mm g0) as [m|] eqn:Hm0.
+    + revert Hg. generalize (EQ g0 :: vis). intros vis0.
+      assert (G : forall es acc, (forall g, In (EQ g) (fst acc) -> P g \/ mm g = None) ->
+                forall g, In (EQ g) (fst (fold_left (fun acc e2 =>
+                   if mem_edge e2 (snd acc) then acc else if mem_edge e2 (fst acc) then acc
+                   else collect mm fuel e2 acc) es acc)) -> P g \/ mm g = None).
+      { induction es as [|e2 es IHes]; intros acc Ha g1 Hg1; [apply Ha; exact Hg1|].
+        cbn [fold_left] in Hg1. revert Hg1. apply IHes.
+        destruct (mem_edge e2 (snd acc)); [exact Ha|]. destruct (mem_edge e2 (fst acc)); [exact Ha|].
+        destruct acc as [o v]. apply IH. exact Ha. }
+      apply (G (m_edges m) (out, vis0) A g).
+    + apply In_add_edge in Hg. destruct Hg as [Hg | Hg]; [apply A; exact Hg|].
+      injection Hg as ->. right. exact Hm0.
+Qed.
+
+Theorem flatten_fn fuel edges g :
+  In (EQ g) (flatten pfam mm fuel edges) -> In (EQ g) edges \/ mm g = None.
+Proof.
+  unfold flatten, flatten_full.
+  assert (G : forall es acc, (forall g, In (EQ g) (fst acc) -> In (EQ g) edges \/ mm g = None) ->
+            (forall e, In e es -> In e edges) ->
+            forall g, In (EQ g) (fst (fold_left (flatten_step pfam mm fuel) es acc)) ->
+                      In (EQ g) edges \/ mm g = None).
+  { induction es as [|e es IHes]; intros acc Ha Hes g1 Hg1; [apply Ha; exact Hg1|].
+    cbn [fold_left] in Hg1. revert Hg1. apply IHes; [|intros x Hx; apply Hes; now right].
+    intros g2 Hg2. unfold flatten_step in Hg2. destruct e as [i|q].
+    - apply In_add_edge in Hg2. destruct Hg2 as [Hg2 | Hg2]; [apply Ha; exact Hg2 | discriminate].
+    - destruct (pfam (fst q)).
+      + apply In_add_edge in Hg2. destruct Hg2 as [Hg2 | Hg2]; [apply Ha; exact Hg2|].
+        injection Hg2 as ->. left. apply Hes. now left.
+      + destruct acc as [o v]. apply (collect_fn fuel (EQ q) o v (fun g => In (EQ g) edges) Ha g2 Hg2). }
+  apply G; [intros g0 [] | auto].
+Qed.
+
+(* every flattened edge, and every expanded dependency, is an original edge or an edge of an
+   expanded dependency's memo *)
+Inductive under (edges : list edge) : edge -> Prop :=
+| under_top e : In e edges -> under edges e
+| under_step g m e : under edges (EQ g) -> mm g = Some m -> In e (m_edges m) -> under edges e.
+
+Lemma collect_under edges fuel : forall e out vis,
+  under edges e -> (forall x, In x out -> under edges x) -> (forall x, In x vis -> under edges x) ->
+  let r := collect mm fuel e (out, vis) in
+  (forall x, In x (fst r) -> under edges x) /\ (forall x, In x (snd r) -> under edges x).
+Proof.
+  induction fuel as [|fuel IH]; intros e out vis He Ho Hv; [split; assumption|].
+  cbn [collect fst snd]. destruct e as [i|g0].
+  - split; [|exact Hv]. intros x Hx. apply In_add_edge in Hx. destruct Hx as [Hx | ->]; [apply Ho; exact Hx | exact He].
+  - destruct (mm g0) as [m|] eqn:Hm0.
+    + assert (G : forall es acc, (forall e2, In e2 es -> under edges e2) ->
+                (forall x, In x (fst acc) -> under edges x) -> (forall x, In x (snd acc) -> under edges x) ->
+                let r := fold_left (fun acc e2 =>
+                   if mem_edge e2 (snd acc) then acc else if mem_edge e2 (fst acc) then acc
+                   else collect mm fuel e2 acc) es acc in
+                (forall x, In x (fst r) -> under edges x) /\ (forall x, In x (snd r) -> under edges x)).
+      { induction es as [|e2 es IHes]; intros acc Hes Ha Hb; [split; assumption|].
+        cbn [fold_left]. apply IHes; [intros x Hx; apply Hes; now right | |];
+          destruct (mem_edge e2 (snd acc)); try assumption;
+          destruct (mem_edge e2 (fst acc)); try assumption;
+          destruct acc as [o v]; apply (IH e2 o v (Hes e2 (or_introl eq_refl)) Ha Hb). }
+      apply G.
+      * intros e2 He2. eapply under_step; eassumption.
+      * exact Ho.
+      * intros x [<- | Hx]; [exact He | apply Hv; exact Hx].
+    + split; [|exact Hv]. intros x Hx. apply In_add_edge in Hx.
+      destruct Hx as [Hx | ->]; [apply Ho; exact Hx | exact He].
+Qed.
+
+Theorem flatten_under fuel edges :
+  let r := flatten_full pfam mm fuel edges in
+  (forall x, In x (fst r) -> under edges x) /\ (forall x, In x (snd r) -> under edges x).
+Proof.
+  unfold flatten_full.
+  assert (G : forall es acc, (forall e, In e es -> In e edges) ->
+            (forall x, In x (fst acc) -> under edges x) -> (forall x, In x (snd acc) -> under edges x) ->
+            let r := fold_left (flatten_step pfam mm fuel) es acc in
+            (forall x, In x (fst r) -> under edges x) /\ (forall x, In x (snd r) -> under edges x)).
+  { induction es as [|e es IHes]; intros acc Hes Ha Hb; [split; assumption|].
+    cbn [fold_left].
+    assert (He : under edges e) by (apply under_top; apply Hes; now left).
+    assert (Hadd : (forall x, In x (add_edge (fst acc) e) -> under edges x)).
+    { intros x Hx. apply In_add_edge in Hx. destruct Hx as [Hx | ->]; [apply Ha; exact Hx | exact He]. }
+    apply IHes; [intros x Hx; apply Hes; now right | |]; unfold flatten_step; destruct e as [i|q]; cbn [fst snd];
+      try assumption; destruct (pfam (fst q)); cbn [fst snd]; try assumption;
+      destruct acc as [o v]; apply (collect_under edges fuel (EQ q) o v He Ha Hb). }
+  apply G; [auto | intros x [] | intros x []].
+Qed.
+
+End Origin.
